@@ -28,6 +28,9 @@ func Exit() {}
 // Yield marks an interleaving point.
 func Yield(label string) {}
 
+// YieldOn is Yield at a point that is about to use the given channel (or other shared object).
+func YieldOn(label string, key interface{}) {}
+
 // Order returns the order in which n items should be visited, nil means as they are.
 func Order(n int, key func(i int) string) []int { return nil }
 
